@@ -165,7 +165,13 @@ pub fn run(o: &Opts) -> Report {
             }
             let body = tok::render(&gm.chunks, "\n", false);
             let (b3, b5) = envelopes[rng.below(3)];
-            let text = format!("{{1:F01BANKBEBBAXXX0000000000}}{{2:I{:03}BANKDEFFXXXXN}}{b3}{{4:\n{}\n-}}{b5}", code, body.trim_end_matches('\n'));
+            // every other message under generated headers (any terminal / branch code, input and output block 2 in all
+            // their shapes): the JSON form of the headers must survive the round trip as well
+            let text = if tries % 2 == 0 {
+                format!("{{1:F01BANKBEBBAXXX0000000000}}{{2:I{:03}BANKDEFFXXXXN}}{b3}{{4:\n{}\n-}}{b5}", code, body.trim_end_matches('\n'))
+            } else {
+                format!("{{1:{}}}{{2:{}}}{b3}{{4:\n{}\n-}}{b5}", crate::c10::gen_b1(&mut rng), crate::c10::gen_b2(&mut rng, &format!("{code:03}")), body.trim_end_matches('\n'))
+            };
             let before = rep.evaluations;
             with_mt!(code, T => one::<T>(&mut rep, code, &text, &plugins, if b3.is_empty() { "plain" } else { "with-block3" }), ());
             if rep.evaluations > before {
